@@ -36,7 +36,8 @@ MANIFEST = {
 
 SEGS = ["a", "..", ".", "", "x" * 250]
 DISGUISED = ["..\x00", "\x00..", ".\x00.", ".\x00"]
-ALLSEGS = SEGS + DISGUISED
+SIBLINGS = ["out2", "out.bak", "ou"]          # names sharing a CHARACTER prefix with the output directory's name "out"
+ALLSEGS = SEGS + DISGUISED + SIBLINGS
 MNAMES = ["m", "../e", "a/b", "..", "x" * 300, "/abs"]
 
 
@@ -64,6 +65,13 @@ def class_names():
         for b_ in dis:
             for c in (A, DD):
                 out.append((a, b_, c))
+    # climbing into a SIBLING of the output directory whose name shares a character prefix with it (a containment test
+    # done on strings instead of path components lets these through)
+    sib = list(range(len(SEGS) + len(DISGUISED), len(ALLSEGS)))
+    for x in sib:
+        for lead in ((DD,), (DD, DD), (DOT, DD), (EMPTY, DD)):
+            out.append(tuple(lead) + (x, A))
+            out.append(tuple(lead) + (x,))
     return out
 
 
@@ -85,6 +93,8 @@ def features(case):
         f.append("class:dotdot")
     if any("\x00" in n for n in names):
         f.append("class:nul-disguised-dots")
+    if any(n in SIBLINGS for n in names):
+        f.append("class:sibling-prefix")
     if "." in names:
         f.append("class:dot")
     if "" in names:
@@ -154,7 +164,7 @@ def judge(case):
         if outside:
             fs = features(case)
             # input-side key: the most specific hostile component (class '..' dominates, then the method-name kind)
-            dom = ([f for f in fs if f == "class:nul-disguised-dots"] or [f for f in fs if f == "class:dotdot"] or [f for f in fs if f.startswith("method:") and f != "method:plain"]
+            dom = ([f for f in fs if f == "class:sibling-prefix"] or [f for f in fs if f == "class:nul-disguised-dots"] or [f for f in fs if f == "class:dotdot"] or [f for f in fs if f.startswith("method:") and f != "method:plain"]
                    or [f for f in fs if f.startswith("param:")] or [f for f in fs if f.startswith("class:")] or ["plain"])[0]
             return ("escape:" + dom,
                     "class %r method %r: created outside the output directory %s: %s (exception: %s)"
@@ -173,7 +183,7 @@ def shards(ctx):
 
 
 def space(ctx):
-    return {"segments": ["a", "..", ".", "", "x*250"], "disguised_segments": ["..\\0", "\\0..", ".\\0.", ".\\0"], "max_segments": 3, "climbing_chains": "3..6 leading '..' behind {nothing, empty, '.', 'a'}, with and without a final name", "class_names": len(class_names()),
+    return {"segments": ["a", "..", ".", "", "x*250"], "disguised_segments": ["..\\0", "\\0..", ".\\0.", ".\\0"], "sibling_prefix_segments": SIBLINGS, "max_segments": 3, "climbing_chains": "3..6 leading '..' behind {nothing, empty, '.', 'a'}, with and without a final name", "class_names": len(class_names()),
             "method_names": [m[:12] for m in MNAMES], "exports": sum(1 for _ in cases(ctx)), "output_nesting": 8}
 
 
